@@ -37,8 +37,6 @@ type verdict struct {
 type ostats struct {
 	recoveries   int
 	revertChecks int
-	c10Points    int
-	c10Bad       int
 }
 
 func eqs(a, b []string) bool {
@@ -240,14 +238,7 @@ func (e *expect) judge(dir string, rc *recovered, mode string, st *ostats) *verd
 	if e.m0 == nil {
 		revs = map[int64]bool{e.rev1: true}
 	}
-	isC10 := e.op[0] == "W" || e.op[0] == "SetRev"
-	if isC10 && mode == "crash" {
-		st.c10Points++
-	}
 	if !revs[rc.rev] {
-		if isC10 && mode == "crash" {
-			st.c10Bad++
-		}
 		return &verdict{"revision-counter-" + mode, fmt.Sprintf("revision counter after reopen %d; before the operation %d, after it %d", rc.rev, e.rev0, e.rev1)}
 	}
 	// attributes kept in volume.meta
@@ -392,6 +383,10 @@ func opClass(op string) string {
 			return "Write(aligned)"
 		}
 		return "Write(unaligned)"
+	case "WWO":
+		return "Write(WO)"
+	case "Replace":
+		return "ReplaceDisk"
 	case "SnapU":
 		return "Snapshot(user)"
 	case "SnapA":
